@@ -644,6 +644,9 @@ def _list_tokens(expr, env, new_p: str) -> Optional[List[str]]:
             else:
                 return None
         return out
+    if isinstance(expr, ast.Subscript) and isinstance(expr.slice, ast.Slice):
+        inner = _list_tokens(expr.value, env, new_p)
+        return None if inner is None else ["OLD-TRUNCATED*" if x.startswith("OLD") else x for x in inner]
     if isinstance(expr, ast.BinOp) and isinstance(expr.op, ast.Add):
         a, b = _list_tokens(expr.left, env, new_p), _list_tokens(expr.right, env, new_p)
         return None if a is None or b is None else a + b
@@ -716,6 +719,11 @@ def r2(ctx, model: Model):
                     continue
                 if isinstance(st, ast.If):
                     block(st.body if test(st.test) else st.orelse)
+                elif isinstance(st, ast.Delete) and all(isinstance(t, ast.Subscript) and isinstance(t.value, ast.Name) and
+                                                        t.value.id in env for t in st.targets):
+                    # `del vals[k:]` / `del vals[i]`: some of the previous values are dropped
+                    for t in st.targets:
+                        env[t.value.id][:] = ["OLD-TRUNCATED*" if x.startswith("OLD") else x for x in env[t.value.id]]
                 elif isinstance(st, ast.Assign) and len(st.targets) == 1 and isinstance(st.targets[0], ast.Name):
                     toks = _list_tokens(st.value, env, new_p)
                     if toks is None:
@@ -777,6 +785,8 @@ def r2(ctx, model: Model):
     bad = {case: (em, okp) for case, (em, okp) in results.items()
            if not (em in (["NEW", "OLD*"], ["NEW", "OLD-*"]) and okp)}
     ctx.ob("C16.R2", "CapsMultiDict.add re-inserts exactly [new value, *previous values]", not bad, f.where,
+           ("a slice / del drops some of the previous values (every entry of a name must survive a new grant: an older "
+            "PROXY_ONLY or still valid sim URL would stop resolving); " if any("OLD-TRUNCATED*" in em for em, _ in bad.values()) else "") +
            "; ".join(f"when the value is {case} among the stored ones the insertion order is {em}"
                      f"{'' if okp else ' with the previous values still in front'}" for case, (em, okp) in bad.items()) +
            ": lookup by name returns the first value, which must be the newest grant")
@@ -839,6 +849,20 @@ def r2(ctx, model: Model):
                     ctx.ob("C16.R2", f"{top_fn(fi).qual}: `{norm(n_)}` keeps the most recent grant per name", False, ctx.w(fi, n_),
                            "a dict built from caps.items() (newest first, names repeat) ends up with the OLDEST URL per "
                            "name; use cap_urls / caps[name] (first = newest) or iterate in reverse")
+    # the proxy's caps client resolves a cap name through the name -> URL view: first entry = newest grant
+    from .c18 import effective_code
+    pcc = repo.cls("ProxyCapsClient")
+    looked = 0
+    for g, _ in effective_code(repo, pcc, "request", depth=3):
+        for n_ in walk(g.node, into_defs=True):
+            if isinstance(n_, ast.Subscript) and isinstance(n_.value, ast.Call) and call_attr(n_.value) in ("getall", "popall") \
+                    and not isinstance(n_.slice, ast.Slice):
+                idx = n_.slice
+                first = isinstance(idx, ast.Constant) and idx.value == 0
+                looked += 1
+                ctx.ob("C16.R2", f"{g.qual}: `{norm(n_)}` takes the first (newest) URL of the name", first, ctx.w(g, n_),
+                       "region.cap_urls lists the URLs of a name newest first (CapsMultiDict.add prepends): any other index, "
+                       "[-1] in particular, is an older grant")
     # grant sites
     n = 0
     for fi, node, kind, method in caps_mutations(model):
